@@ -143,6 +143,13 @@ impl DSpec {
                 p.push(Color::new(1, 2, 3));
                 p
             }
+            5 => {
+                // a strict prefix of the DOS palette: its first 8 colours
+                let mut p = Palette::dos_default();
+                p.resize(8);
+                p
+            }
+            6 => Palette::from_slice(&[Color::new(0, 0, 0)]),
             4 => {
                 // equal neighbours: a colour set far behind the end pads the gap with equal entries
                 let mut p = Palette::dos_default();
@@ -229,7 +236,7 @@ impl DSpec {
     }
     fn json(&self) -> Value {
         json!({"size": [self.w, self.h], "buffer_type": self.buffer_type, "ice_mode": self.ice, "palette_mode": self.palette_mode, "font_mode": self.font_mode,
-               "palette": (["default 16", "1 colour", "17 colours", "300 colours", "23 colours with equal neighbours"][self.palette as usize]), "fonts": (["{0}", "{0,1}", "{0,255,300}", "{0: default font edited in place}", "{5} only, every cell on page 5", "{0: a font declaring 9 pixels width}"][self.fonts as usize]),
+               "palette": (["default 16", "1 colour", "17 colours", "300 colours", "23 colours with equal neighbours", "the first 8 DOS colours", "black only"][self.palette as usize]), "fonts": (["{0}", "{0,1}", "{0,255,300}", "{0: default font edited in place}", "{5} only, every cell on page 5", "{0: a font declaring 9 pixels width}"][self.fonts as usize]),
                "sauce": (["none", "plain", "with comments"][self.sauce as usize]), "layers": self.layers.iter().map(|l| l.json()).collect::<Vec<_>>()})
     }
 }
@@ -436,7 +443,7 @@ fn dims() -> Vec<Dim> {
         Dim { name: "ice mode", n: 3, apply: |d, v| d.ice = v as u8 },
         Dim { name: "palette mode", n: 4, apply: |d, v| d.palette_mode = v as u8 },
         Dim { name: "font mode", n: 4, apply: |d, v| d.font_mode = v as u8 },
-        Dim { name: "palette", n: 5, apply: |d, v| d.palette = v as u8 },
+        Dim { name: "palette", n: 7, apply: |d, v| d.palette = v as u8 },
         Dim { name: "fonts", n: 6, apply: |d, v| d.fonts = v as u8 },
         Dim { name: "sauce", n: 3, apply: |d, v| d.sauce = v as u8 },
         Dim { name: "buffer size", n: 6, apply: |d, v| {
